@@ -210,18 +210,42 @@ func (r *MemoryModelRegistry) GetEndpointsForModel(ctx context.Context, modelNam
 	r.mu.RLock()
 	defer r.mu.RUnlock()
 
-	endpointSet, ok := r.modelToEndpoints.Load(modelName)
-	if !ok {
+	endpointSets := r.lookupEndpointSets(modelName)
+	if len(endpointSets) == 0 {
 		return []string{}, nil
 	}
 
 	var endpoints []string
-	endpointSet.Range(func(endpoint string, _ struct{}) bool {
-		endpoints = append(endpoints, endpoint)
-		return true
-	})
+	seen := make(map[string]struct{})
+	for _, endpointSet := range endpointSets {
+		endpointSet.Range(func(endpoint string, _ struct{}) bool {
+			if _, dup := seen[endpoint]; !dup {
+				seen[endpoint] = struct{}{}
+				endpoints = append(endpoints, endpoint)
+			}
+			return true
+		})
+	}
 
 	return endpoints, nil
+}
+
+// lookupEndpointSets returns the endpoint sets registered for modelName. The request path
+// lower-cases model names while listings keep the backend's spelling (e.g. "Qwen/Qwen2.5-7B"),
+// so an exact miss falls back to a case-insensitive match. Callers hold r.mu.
+func (r *MemoryModelRegistry) lookupEndpointSets(modelName string) []*xsync.Map[string, struct{}] {
+	if endpointSet, ok := r.modelToEndpoints.Load(modelName); ok {
+		return []*xsync.Map[string, struct{}]{endpointSet}
+	}
+
+	var sets []*xsync.Map[string, struct{}]
+	r.modelToEndpoints.Range(func(name string, endpointSet *xsync.Map[string, struct{}]) bool {
+		if strings.EqualFold(name, modelName) {
+			sets = append(sets, endpointSet)
+		}
+		return true
+	})
+	return sets
 }
 
 func (r *MemoryModelRegistry) IsModelAvailable(ctx context.Context, modelName string) bool {
@@ -238,17 +262,14 @@ func (r *MemoryModelRegistry) IsModelAvailable(ctx context.Context, modelName st
 	r.mu.RLock()
 	defer r.mu.RUnlock()
 
-	endpointSet, ok := r.modelToEndpoints.Load(modelName)
-	if !ok {
-		return false
-	}
-
-	// Check if the set has any endpoints
+	// Check if any matching set has endpoints
 	hasEndpoints := false
-	endpointSet.Range(func(_ string, _ struct{}) bool {
-		hasEndpoints = true
-		return false // Stop after first item
-	})
+	for _, endpointSet := range r.lookupEndpointSets(modelName) {
+		endpointSet.Range(func(_ string, _ struct{}) bool {
+			hasEndpoints = true
+			return false // Stop after first item
+		})
+	}
 
 	return hasEndpoints
 }
